@@ -55,6 +55,16 @@ func certOf(r *hx.Rand, key *wire.Key, noTouchExt bool) []byte {
 
 func emitVer(g *hx.Gen, keyBlob []byte, pub *wire.Pub, notouch int, data []byte, s *wire.Sig, class string) {
 	g.Stat("ver." + class)
+	cov.Hit("keyKind", pub.Kind)
+	cov.Hit("verClass", class)
+	g.Stat("pair.kind-" + pub.Kind + "+" + class)
+	g.Stat(fmt.Sprintf("pair.kind-%s+notouch-%d", pub.Kind, notouch))
+	switch s.Format {
+	case "ssh-rsa", "rsa-sha2-256", "rsa-sha2-512", "ssh-dss", "ecdsa-sha2-nistp256", "ecdsa-sha2-nistp384", "ecdsa-sha2-nistp521", "ssh-ed25519", "sk-ecdsa-sha2-nistp256@openssh.com", "sk-ssh-ed25519@openssh.com":
+		cov.Hit("hashFunc.format", s.Format)
+	default:
+		cov.Hit("hashFunc.format", "unmapped")
+	}
 	cv := pub.CVTable(data, s)
 	cvs := "-"
 	if len(cv) > 0 {
@@ -64,7 +74,18 @@ func emitVer(g *hx.Gen, keyBlob []byte, pub *wire.Pub, notouch int, data []byte,
 		class, hx.Hex(keyBlob), ptsField(keyBlob), notouch, hx.Hex(data), hx.Hex([]byte(s.Format)), hx.Hex(s.Blob), hx.Hex(s.Rest), cvs)
 }
 
+var cov = wire.NewCover()
+
 func gen(g *hx.Gen) {
+	cov.Declare("keyKind", wire.Kinds...)
+	cov.Declare("hashFunc.format", "ssh-rsa", "rsa-sha2-256", "rsa-sha2-512", "ssh-dss", "ecdsa-sha2-nistp256", "ecdsa-sha2-nistp384",
+		"ecdsa-sha2-nistp521", "ssh-ed25519", "sk-ecdsa-sha2-nistp256@openssh.com", "sk-ssh-ed25519@openssh.com", "unmapped")
+	cov.Declare("verClass", "valid", "other-data", "other-key", "blob-flip", "blob-truncated", "blob-extended", "format-swap", "rest-mutated",
+		"ecdsa-noncanonical-mpints", "rsa-short-blob", "rsa-blob-longer-than-modulus", "empty-blob", "wrong-application")
+	cov.Declare("NewPublicKey.arm", "rsa", "dsa", "ecdsa256", "ecdsa384", "ecdsa521", "ecdsa224", "ed25519", "other")
+	cov.Declare("NewSignerFromKey.arm", "rsa", "dsa", "ecdsa256", "ecdsa384", "ecdsa521", "ecdsa224", "ed25519", "other")
+	cov.Declare("NewCertSigner.signerForm", "full", "algonly", "signonly")
+	defer cov.Report(g.StatN)
 	n := g.Count(3000, 40000)
 	r := g.R
 	// the complete SK flag table first: 256 flag bytes × {touch required, opt-out} × both sk kinds
@@ -92,12 +113,18 @@ func gen(g *hx.Gen) {
 	}
 	for i := 0; i < n; i++ {
 		switch k := r.Intn(20); {
-		case k < 16:
+		case k < 12:
 			genVer(g, r)
-		case k < 17:
+		case k < 13:
 			genNta(g, r)
-		default:
+		case k < 15:
 			genMsign(g, r)
+		case k < 16:
+			genNew(g, r)
+		case k < 17:
+			genCpk(g, r)
+		default:
+			genCsign(g, r)
 		}
 	}
 }
@@ -197,6 +224,15 @@ func genVer(g *hx.Gen, r *hx.Rand) {
 					break
 				}
 			}
+		}
+	case 10:
+		if kind == "rsa" { // a valid signature with surplus leading bytes: longer than the modulus, must be rejected
+			class = "rsa-blob-longer-than-modulus"
+			extra := r.Bytes(r.Range(1, 3))
+			if r.Bool() {
+				extra = make([]byte, len(extra))
+			}
+			sig.Blob = append(extra, sig.Blob...)
 		}
 	case 8:
 		class = "empty-blob"
@@ -362,6 +398,14 @@ func execOp(line string) string {
 		return execNta(o)
 	case "msign":
 		return execMsign(o)
+	case "newpub":
+		return execNewPub(o)
+	case "newsigner":
+		return execNewSigner(o)
+	case "cpk":
+		return execCpk(o)
+	case "csign":
+		return execCsign(o)
 	}
 	return "bad-op"
 }
